@@ -66,7 +66,16 @@ func dsTicks(d time.Duration) interface{} {
 
 var dsZone = time.FixedZone("verif+0330", 3*3600+1800)
 
-const dsRepresentations = 6
+const dsRepresentations = 9
+
+// representations 6..8 move the whole vector to another origin (the specification only uses differences of
+// instants): `now` one hour before the zero instant of time.Time, in the year -100, and at Unix time -2^40 s.
+// They are skipped for vectors with an unset timestamp, whose meaning depends on where the zero instant lies.
+var dsOrigins = []time.Time{
+	time.Time{}.Add(-time.Hour),
+	time.Date(-100, time.March, 1, 12, 0, 0, 7, time.UTC),
+	time.Unix(-1<<40, 0),
+}
 
 // dsClock builds the time.Time values of one vector in one representation.
 type dsClock struct {
@@ -96,9 +105,15 @@ func (c *dsClock) at(x int64, field int) time.Time {
 		return t.In(dsZone)
 	case 3: // rebuilt from stored seconds and nanoseconds, monotonic reading stripped
 		return time.Unix(t.Unix(), int64(t.Nanosecond())).Round(0)
-	case 4: // all instants derived from one time.Now(): they carry monotonic clock readings while in range
+	case 4, 6, 7, 8: // 4: all instants derived from one time.Now(): they carry monotonic clock readings while in range
 		d := new(big.Int).Sub(dsNanos(x), dsNanos(c.nowX))
 		r := c.origin
+		if c.rep >= 6 {
+			r = dsOrigins[c.rep-6]
+			if field%2 == 1 {
+				r = r.In(dsZone)
+			}
+		}
 		step := big.NewInt(int64(7) << 60)
 		for d.Sign() != 0 {
 			s := new(big.Int).Set(d)
@@ -168,7 +183,11 @@ func (dsInst) Apply(act map[string]interface{}) (map[string]interface{}, error) 
 	}
 	nowX := i64(in["now"])
 	distinct := map[string]interface{}{}
+	synced, _ := in["synced"].(bool)
 	for rep := 0; rep < dsRepresentations; rep++ {
+		if rep >= 6 && (len(isZero) > 0 || (strings.HasPrefix(op, "synced/") && !synced)) {
+			continue
+		}
 		c := newDsClock(rep, nowX)
 		get := func(name string, x interface{}, field int) time.Time {
 			if isZero[name] {
@@ -190,7 +209,7 @@ func (dsInst) Apply(act map[string]interface{}) (map[string]interface{}, error) 
 				ExternalSelfEventCreated:  get("created", ts["created"], 5),
 				ExternalSelfEventDetected: get("detected", ts["detected"], 6),
 			}
-			if synced, _ := in["synced"].(bool); !synced {
+			if !synced {
 				s.P2PSynced = c.zero(3) // "P2P sync not finished": the timestamp was never set
 			}
 			wait, err := doublesign.SyncedToEmit(s, thr)
